@@ -40,6 +40,7 @@ class Contract:
         self.fuel = kw.pop("fuel", 1)
         self.hints = kw.pop("hints", [])
         self.at_yield = kw.pop("at_yield", [])
+        self.asserts = kw.pop("asserts", [])  # intermediate facts at the exit: proved, then assumed for the postcondition
         self.yields = kw.pop("yields", None)  # elem Ty for generators
         self.yields_expr = kw.pop("yields_expr", None)  # clause: the whole sequence the generator yields
         self.ghost = kw.pop("ghost", {})  # ghost name -> Ty (logical variables)
